@@ -985,7 +985,7 @@ def part_b(ck, S, g, exe_rel, exe_fuzz):
   t_asan = [0.0]
   t_crash = [0.0]
   rel_sites = {}      # crash site in the rel worker -> (symbolized) ASan report of the first document that died there
-  max_reruns = ck.budget(30, 300)
+  max_reruns = ck.budget(12, 300)
 
   def rel_site(report):
     i = report.find('VF-CRASH')
@@ -1065,7 +1065,7 @@ def part_b(ck, S, g, exe_rel, exe_fuzz):
       return None
     fp = 'conforming-rejected:%s@%s' % (re.sub(r'\d+', 'N', msg)[:90], el)
     rep_doc = doc
-    if ck.known(fp) is None and fp not in S.findings and S.minimized < 12:
+    if ck.known(fp) is None and fp not in S.findings and S.minimized < ck.budget(3, 12):
       S.minimized += 1
       d2, memo = doc.clone()
       tgt = re.sub(r'\d+', 'N', msg)
@@ -1296,7 +1296,14 @@ def part_b(ck, S, g, exe_rel, exe_fuzz):
         else:
           deferred = True
           verdict = 'inconclusive-base-does-not-compile'
-      if not deferred:
+      custom_read = (kind in ('non_numeric', 'too_many', 'too_few') and isinstance(site.detail, str) and
+                     site.detail in site.ctx.attr and site.ctx.attr[site.detail].facets.get('reading') == 'custom')
+      if not deferred and custom_read:
+        # attributes declared reading=custom have hand-written read semantics by the schema's own definition ("no typed
+        # binding is generated"): whether and when their text is parsed is the reader's rule, not a schema rule (e.g.
+        # mesh.params is only read when builtin= is present).  Acceptance is counted, not judged; crashes still are.
+        verdict = 'accepted-custom-reading(not-judged)'
+      elif not deferred:
         verdict = 'ACCEPTED'
         if alias and kind in SCHEMA_CHECK_KINDS:
           fp = 'schema-check-skipped:%s-%s' % ('frame-replicate-element' if alias == 'self' else 'inside-frame-replicate',
@@ -1308,7 +1315,7 @@ def part_b(ck, S, g, exe_rel, exe_fuzz):
             attr = re.sub(r'[^A-Za-z0-9_]+', '_', str(d))[:40]
           fp = 'accepted:%s:%s.%s' % (kind, site.ctx.elemkey(), attr)
         rep = vdoc
-        if ck.known(fp) is None and fp not in S.findings and S.minimized < 12:
+        if ck.known(fp) is None and fp not in S.findings and S.minimized < ck.budget(3, 12):
           S.minimized += 1
           d2, memo2 = vdoc.clone()
           keep = memo2[id(vnode)]
